@@ -31,11 +31,32 @@ ALT_VALUES = st.sampled_from([-1000.0, 1000.0, -1000.0, 1000.0, 0.0, 1.0, -1.0, 
 
 @st.composite
 def cases(draw, tier, satisfied=False):
-    p = EXPL if tier == 'quick' else EXPL.copy(max_depth=5)
+    p = EXPL.copy(max_depth=5) if tier == 'quick' else EXPL.copy(max_depth=6)
+    style = draw(st.sampled_from(['plain', 'simple-predicates', 'simple-predicates', 'two-branches']))
+    if style != 'plain':
+        # predicates "var cmp const": the depth budget goes into temporal / Boolean nesting
+        p = p.copy(const_pred_only=True, bare_operand=False)
     nv = draw(st.sampled_from([1, 1, 2, 3]))
     start = draw(st.integers(0, len(F.VAR_POOL) - 1))
     vs = [F.VAR_POOL[(start + i) % len(F.VAR_POOL)] for i in range(nv)]
     f, _ = draw(F.formulas(p, variables=vs))
+    if style == 'two-branches':
+        # the same variable under two temporal operators with different windows (nested / overlapping explanations)
+        def branch():
+            v = ('var', vs[0])
+            pr = ('pred', draw(st.sampled_from(['>', '>=', '<', '<='])), v, ('const', draw(st.sampled_from([0.0, 1.0, 2.0]))))
+            if draw(st.booleans()):
+                pr = ('un', 'not', pr)
+            b = draw(st.integers(0, 6))
+            a = draw(st.integers(0, b))
+            g = ('tun', draw(st.sampled_from(['eventually', 'always', 'once', 'historically'])), a, b, pr)
+            if draw(st.integers(0, 2)) == 0:
+                b2 = draw(st.integers(0, 4))
+                g = ('tun', draw(st.sampled_from(['eventually', 'always'])), draw(st.integers(0, b2)), b2, g)
+            return g
+        f = ('bin', draw(st.sampled_from(['and', 'or', 'implies'])), branch(), branch())
+        if draw(st.integers(0, 2)) == 0:
+            f = ('un', 'not', f)
     n = draw(F.trace_lengths(8))
     # values off the integer/half grid so that robustness 0 (no verdict) is rare
     vals = st.integers(-16, 15).map(lambda k: (k + 0.5) / 2.0)
